@@ -2,7 +2,7 @@
 import glob, json, os
 import vlib, setlib as sl, setgen, phasecheck as pc, phaselib as pl
 
-IMPORTS = "From PKOCorr Require Import SetMonitors PhaseMonitors."
+IMPORTS = "From PKOCorr Require Import SetMonitors PhaseMonitors SetJudges."
 
 
 def corpus(pid):
